@@ -10,6 +10,7 @@ def F(name, op, tiers, nb=4, k=4, **kw):
     defs = ["OP=%s" % op, "NB=%d" % nb, "K=%d" % k, "VF_MAX=%d" % (nb + 2)]
     if name.startswith("lifecycle."):
         defs.append("OPSEQ=" + ",".join(name.split(".")[1]))
+        name = name.replace(".", ".", 1)
     return Ob("file.%s" % name, "C20/file_stream.c", defs=defs, srcs_extra=["env_stdio.c"],
               unwind=max(nb, k) + 4, unwindset=US, checks=["bounds", "pointer"], tiers=tiers, object_bits=14, **kw)
 import itertools
@@ -21,6 +22,11 @@ OBLIGATIONS = [
     F("lifecycle.%s" % "".join(str(x) for x in seq), "OP_LIFECYCLE", (("quick", "thorough") if seq in QSEQ else ("thorough",)), k=len(seq), timeout=1800,
       desc="stream operation sequence %s (0 open, 1 close, 2 with, 3 write, 4 read, 5 tell, 6 seek+flush, 7 eof) with symbolic fopen/fclose failures" % (seq,))
     for seq in ALLSEQ
+] + [
+    # the not-open guards are part of the contract in every build configuration (CELLO_NDEBUG compiles the other check families out)
+    F("lifecycle.%s.ndebug" % "".join(str(x) for x in seq), "OP_LIFECYCLE", ("quick", "thorough"), k=len(seq), timeout=1800, config="ndebug",
+      desc="stream operation sequence %s in the CELLO_NDEBUG configuration" % (seq,))
+    for seq in [(3,), (4,), (5,), (6,), (7,), (1,), (0, 1, 3), (0, 1, 4), (0, 0, 1)]
 ]
 LEVEL_TEXT = ("Bounded model checking of the real File.c wrappers through the full dispatch over a contract model of stdio: symbolic bytes, chunkings and seek offsets; "
               "symbolic sequences of stream operations with fopen/fclose failures injected.")
